@@ -18,6 +18,7 @@ func init() {
 	vrt.Register("C19_groupby_errors", GroupByErrors)
 	vrt.Register("C19_len", Len)
 	vrt.Register("C19_through_template", ThroughTemplate)
+	vrt.Register("C19_long_intervals_in_loops", LongIntervalsInLoops)
 }
 
 // Step lemma on an arbitrary iterator state: Range(p+1, e) (wrapping) reaches
@@ -312,5 +313,55 @@ func ThroughTemplate() {
 	vrt.Note("got", got)
 	vrt.Assert(err == nil, "a loop over an iterator helper renders")
 	vrt.Assert(got == want, "a template loop over range/between/until/groupBy sees exactly the helper's sequence, and terminates")
+	vrt.Cover("done")
+}
+
+// ---- intervals of ANY length (both ends arbitrary 64-bit ints: up to 2^64
+// numbers) looped over in a template and left by break after the first
+// elements: the loop yields a, a+1, ... whatever the length of the interval is
+func LongIntervalsInLoops() {
+	a, b := vrt.Int(), vrt.Int()
+	k := vrt.IntRange(0, 2) // elements seen before the break
+	ctx := plush.NewContext()
+	ctx.Set("a", a)
+	ctx.Set("b", b)
+	itoa := strconv.Itoa
+	var in, want string
+	switch vrt.Choice(3) {
+	case 0: // range(a, b): at least k+1 numbers
+		vrt.Assume(a <= b)
+		vrt.Assume(uint(b)-uint(a) >= uint(k))
+		ctx.Set("stop", a+k)
+		in = "[<%= for (v) in range(a, b) { %><%= v %>,<% if (v == stop) { break } %><% } %>]"
+		want = "["
+		for i := 0; i <= k; i++ {
+			want += itoa(a+i) + ","
+		}
+		want += "]"
+	case 1: // between(a, b): a+1 .. b-1, at least k+1 numbers
+		vrt.Assume(a < b)
+		vrt.Assume(uint(b)-uint(a) >= uint(k)+2)
+		ctx.Set("stop", a+1+k)
+		in = "[<%= for (v) in between(a, b) { %><%= v %>,<% if (v == stop) { break } %><% } %>]"
+		want = "["
+		for i := 0; i <= k; i++ {
+			want += itoa(a+1+i) + ","
+		}
+		want += "]"
+	default: // until(b): 0 .. b-1
+		vrt.Assume(b > k)
+		ctx.Set("stop", k)
+		in = "[<%= for (i, v) in until(b) { %><%= i %>=<%= v %>,<% if (v == stop) { break } %><% } %>]"
+		want = "["
+		for i := 0; i <= k; i++ {
+			want += itoa(i) + "=" + itoa(i) + ","
+		}
+		want += "]"
+	}
+	vrt.Note("input", in)
+	got, err := plush.Render(in, ctx)
+	vrt.Note("got", got)
+	vrt.Assert(err == nil, "a loop over an interval of any length renders")
+	vrt.Assert(got == want, "a loop over range / between / until yields the first elements of the interval, however long it is")
 	vrt.Cover("done")
 }
